@@ -66,6 +66,9 @@ def sites(m, limit=None, accept_biased=False, coords=False):
                 if accept_biased:
                     out.append(("cos.fab_prefix", (lv, f, k)))
             out.append(("bin.append_zeros", (lv, f)))
+            out.append(("bin.append_bytes", (lv, f, 1 + (lv + len(bids)) % 7)))       # 1..7 stray bytes
+            out.append(("bin.truncate_tail", (lv, f, 1 + (lv + 3 * len(bids)) % 7)))  # 1..7 bytes short
+            out.append(("bin.remove_odd", (lv, f, ks[0])))
             out.append(("bin.append_dup_fab", (lv, f)))
         bs = sorted({0, nb // 2, nb - 1})
         for b in bs:
@@ -173,6 +176,13 @@ def apply(path, m, op, args):
             if op == "bin.truncate0":
                 os.truncate(fp, 0)
                 return f"truncate L{lv}/{f} to 0"
+            if op == "bin.append_bytes":
+                with open(fp, "ab") as fh:
+                    fh.write(b"\n" * args[2])
+                return f"append {args[2]} byte(s) to L{lv}/{f}"
+            if op == "bin.truncate_tail":
+                os.truncate(fp, max(0, size - args[2]))
+                return f"cut {args[2]} byte(s) off the end of L{lv}/{f}"
             if op == "bin.append_zeros":
                 with open(fp, "ab") as fh:
                     fh.write(b"\x00" * 16)
@@ -203,6 +213,9 @@ def apply(path, m, op, args):
                 data = data[:p] + b"\x11" * 8 + data[p:]
             elif op == "bin.insert_at_fab_start":
                 data = data[:pos] + b"XXXXX" + data[pos:]
+            elif op == "bin.remove_odd":
+                p = pos + hl + (nb // 16) * 8
+                data = data[:p] + data[p + 3:]
             elif op == "bin.remove_from_payload":
                 p = pos + hl + (nb // 16) * 8
                 data = data[:p] + data[p + 8:]
